@@ -25,14 +25,14 @@ BIN = os.path.join(ROOT, ".target", "release", "tmverif")
 WORK = os.path.join(ROOT, ".work", "aux")
 
 MIRI = [
-    ("mapper", ["mapper", "prop=ALL", "layouts=6", "walks=3", "corpus_walks=1", "exh_every=3", "exh_states=300"]),
+    ("mapper", ["mapper", "prop=ALL", "layouts=8", "walks=3", "corpus_walks=0", "exh_budget=0"]),
     ("convert", ["convert", "prop=C13", "aux=1", "programs=15"]),
     ("systemd", ["systemd", "prop=C17", "aux=1", "random=30"]),
     ("load", ["load", "prop=C14", "inputs=60"]),
     ("wire", ["wire", "prop=C18", "aux=1", "random=3"]),
 ]
 VALGRIND = [
-    ("mapper", ["mapper", "prop=ALL", "layouts=60", "walks=10", "corpus_walks=4"]),
+    ("mapper", ["mapper", "prop=ALL", "layouts=60", "walks=10", "corpus_walks=4", "exh_budget=300000"]),
     ("loop", ["loop", "prop=C11", "layouts=20", "schedules=6"]),
     ("convert", ["convert", "prop=C13", "aux=1", "programs=400"]),
     ("load", ["load", "prop=C14", "inputs=600"]),
